@@ -373,6 +373,10 @@ class Program:
         transitively reach a callee name satisfying pred(name)?  Memoised
         fixpoint over the local call graph."""
         key = id(pred)
+        self._reach_keep = getattr(self, "_reach_keep", [])
+        if not any(k is pred for k in self._reach_keep):
+            self._reach_keep.append(pred)   # keep alive: ids of dead lambdas are reused
+            self._reach_cache.pop(key, None)
         cache = self._reach_cache.setdefault(key, {})
         if not cache:
             # compute for all local bodies at once (fixpoint)
@@ -393,6 +397,22 @@ class Program:
         if start_name in cache:
             return cache[start_name]
         return pred(start_name)
+
+    def reaches_name(self, start_name, name):
+        """does start_name transitively reach a callee matching the ::-suffix `name` (cached by name)"""
+        cache = self._reach_cache.setdefault(("name", name), {})
+        if not cache:
+            direct = {p: self.edges_out(b) for p, b in self.bodies.items()}
+            val = {p: any(path_matches(o, name) for o in outs) for p, outs in direct.items()}
+            changed = True
+            while changed:
+                changed = False
+                for p, outs in direct.items():
+                    if not val[p] and any(val.get(o, False) for o in outs):
+                        val[p] = True
+                        changed = True
+            cache.update(val)
+        return cache.get(start_name, path_matches(start_name, name))
 
     def reach_set(self, pred):
         self.reaches("", pred)
